@@ -1264,6 +1264,100 @@ def run_c10(ctx):
     return _offset_common(ctx, 'c10', 'C10', _tier(ctx, 600, 20000), ent, classify)
 
 
+# ------------------------------------------------------------------ C09
+def want_open(ct, fr, ws, wc):
+    s, c = geom.filled(fr, ws), geom.filled(fr, wc)
+    return [None, c, (not s) and (not c), not c, not c][ct]
+
+
+def c09_confirm(m, seg):
+    S, C, OS = m['subject'], m['clip'], m['open_solution']
+    band = geom.closed_edges(S) + geom.closed_edges(C)
+    a, b = seg
+    # orient as the checker does
+    if a[1] == b[1]:
+        if a[0] > b[0]:
+            a, b = b, a
+    elif a[1] > b[1]:
+        a, b = b, a
+    cov = c11_cov2(a, b, OS)
+    ts = set(F(k, 360) for k in range(361))
+    for lo, hi in cov:
+        ts.update([lo, hi])
+        for d in (F(1, 1000), -F(1, 1000)):
+            for v in (lo + d, hi + d):
+                if 0 <= v <= 1:
+                    ts.add(v)
+    for tt in sorted(ts):
+        qq = (a[0] + tt * (b[0] - a[0]), a[1] + tt * (b[1] - a[1]))
+        d2 = geom.min_dist2(band, qq)
+        if d2 is not None and d2 <= 4:
+            continue
+        w = want_open(m['ct'], m['fr'], geom.wn(S, qq), geom.wn(C, qq))
+        cv = any(lo <= tt <= hi for lo, hi in cov)
+        if w != cv:
+            return {'segment': [a, b], 't': str(tt), 'point': [str(qq[0]), str(qq[1])], 'should_be_covered': w, 'covered': cv,
+                    'windings': [geom.wn(S, qq), geom.wn(C, qq)]}
+    return None
+
+
+def run_c09(ctx):
+    n = _tier(ctx, 2000, 50000)
+    results, meta, summary = _stream(ctx, 'c09', n, 'none', _tier(ctx, 600, 5400))
+    _merge_dist(ctx, summary)
+    ent = lambda m: {'open': m['open'], 'subject': m['subject'], 'clip': m['clip'], 'ct': m['ct'], 'fr': m['fr']}
+    viol = _direct(summary, 'C09', lambda d: {k: d.get(k) for k in ('open', 'subject', 'clip', 'ct', 'fr')})
+    seen = set()
+    for cid, res in results.items():
+        m = meta[cid]
+        entry = ent(m)
+        key = fw.input_key(entry)
+        ctx['evaluations'] += 1
+        if 'segment' in m:
+            if res.startswith('OK'):
+                continue
+            conf = c09_confirm(m, m['segment'])
+            v = {'key': key, 'kind': 'open-coverage', 'detail': {'corpus_entry': entry, 'segment': m['segment'], 'open_solution': m['open_solution'], 'confirmed': conf}}
+            if conf:
+                v['text'] = 'clip type %d fill rule %d: point %s of open subject segment %s (t=%s), > 2 units from every closed edge, is %s by the open solution but should %sbe (closed windings %s)' % (
+                    m['ct'], m['fr'], conf['point'], conf['segment'], conf['t'], 'covered' if conf['covered'] else 'not covered', '' if conf['should_be_covered'] else 'not ', conf['windings'])
+            else:
+                v['text'] = 'open-path certificate rejected for segment %s of input key %s' % (m['segment'], key)
+                v['no_input'] = True
+            viol.append(v)
+            continue
+        if cid.endswith('c'):
+            if res.startswith('OK'):
+                continue
+            S, C, Sol = m['subject'], m['clip'], m['closed_solution']
+            ct, fr = m['ct'], m['fr']
+            pred = lambda w: (w[2] % 2 != 0) == geom.expected(ct, geom.filled(fr, w[0]), geom.filled(fr, w[1]))
+            conf = fw.confirm_region([S, C, Sol], geom.closed_edges(S) + geom.closed_edges(C), 4, pred, fw.parse_fail(res))
+            if not conf:
+                r2 = fw.recheck_deeper(ctx['root'], ctx['outdir'], [cid]).get(cid, '')
+                if r2.startswith('OK'):
+                    continue
+            v = {'key': LOBE_KEY if lobe_known(m, conf) else key, 'kind': 'closed-altered', 'detail': {'corpus_entry': entry, 'closed_solution': Sol, 'confirmed': conf}}
+            v['text'] = ('the closed solution computed in the presence of open paths is not the boolean region of the closed inputs at (%s, %s), windings %s' % (conf['point'][0], conf['point'][1], conf['windings'])) if conf else 'closed-solution certificate rejected (%s)' % res[:80]
+            if not conf:
+                v['no_input'] = True
+            viol.append(v)
+            continue
+        # per-case record: sub-polyline clause, decided directly
+        seen.add(key) if m['open_solution'] else None
+        if len(ctx['samples']) < 3 and m['open_solution']:
+            ctx['samples'].append(dict(entry, open_solution=m['open_solution']))
+        segs = geom.open_edges(m['open'])
+        for p in m['open_solution']:
+            for vtx in p:
+                if segs and geom.min_dist2(segs, (F(vtx[0]), F(vtx[1]))) > 2:
+                    viol.append({'key': key, 'kind': 'open-vertex-off-subject', 'text': 'open solution vertex %s is more than sqrt 2 from every open subject segment' % vtx,
+                                 'detail': {'corpus_entry': entry, 'open_solution': m['open_solution']}})
+                    break
+    ctx['nontrivial'] += len(seen)
+    return viol
+
+
 REGION_TRUST = [
     "the region checker is proved sound for every real point (Cert/RegionSound.v); what ties it to the code is that the implementation's actual outputs are fed to the extracted checker on every run (generated + corpus inputs): a defect no generated input triggers stays invisible",
     fw.REAL_AXIOMS,
@@ -1386,6 +1480,17 @@ PROPS = {
                   'squared radii (k|delta| + tol)^2 are passed as rational upper bounds chosen by the harness; the checker uses them exactly'],
         'rule': 'open polylines of 1-6 points (duplicates, gentle turns) x 4 end types x 4 join types x half-widths 5%-30% of the segment length; per case: canonical form, both normal strips of every segment inside the result, nothing farther than k*delta+tol from the polyline, single points against an inscribed square/disc',
         'assumes': ['PARTIAL as C05'],
+    },
+    'C09': {
+        'run': run_c09, 'level': 'proof',
+        'trust': ['Cert/Line.v checker proved sound for every real parameter of every open subject segment (Cert/LineSound.v): slab ordering for non-horizontal segments, split-point chains for horizontal ones, exact pointwise evaluation at the end point; the implementation outputs are fed to the extracted checker on every run',
+                  fw.REAL_AXIOMS,
+                  'the reading of "covered" (Cert/RectLine.v cov_intervals with tolerance sqrt 2): the parameter lies between the projections of the end points of a solution segment both within sqrt 2 of the subject segment',
+                  'Xor is read as the code documents it for open paths (as Difference)',
+                  'the closed solution computed together with open paths is certified against the closed inputs alone by C01_region; the sub-polyline clause (vertices within sqrt 2 of a subject segment) is decided directly',
+                  'modelled rather than verified: the sweep\'s open-path handling is certified result-by-result'],
+        'rule': 'open polylines (2-7 points, horizontal segments, starting on clip vertices / running along clip edges) x closed clip sets (and closed subjects in a third of the cases) x 4 clip types x 4 fill rules through Clipper64.AddPaths(..., Subject, true) + ExecuteOC; every open subject segment is a certificate; non-trivial = non-empty open solution',
+        'assumes': [],
     },
     'C02': {
         'run': run_c02, 'level': 'proof', 'trust': REGION_TRUST,
